@@ -758,11 +758,68 @@ func (l *ledger) consistent(e event) bool {
 	return true
 }
 
+// extra: the rest of the properties' quantifier ("event histories a validating node could emit"), i.e. what Lean's
+// `TxStore.Consistent` demands on top of `Ledger.consistent` (`Ledger.extra` + the `bound` clause):
+//   - a transaction accepted into the mempool (seen for the first time) does not conflict with a confirmed one,
+//   - an input naming a known transaction names one of its outputs,
+//   - the abandoned transaction IS the unconfirmed transaction with that hash,
+//   - fewer than 2^32-1 outputs, no transaction spends an output of itself.
+//
+// consistent && extra is the independent Go-side tracker that decides whether the C01/C02/C12/C13 oracles apply;
+// `consistent` alone keeps deciding the `cons=` field of the replies and the `spec …` ops, which are compared with
+// the Lean driver on ALL inputs.
+func (l *ledger) extra(e event) bool {
+	validRefs := func(t *txDef) bool {
+		for _, in := range t.ins {
+			if p := l.find(in.Hash); p != nil && int64(in.Index) >= int64(len(p.tx.outs)) {
+				return false
+			}
+		}
+		return true
+	}
+	bound := func(t *txDef) bool {
+		if int64(len(t.outs)) > 0xffffffff {
+			return false
+		}
+		return !t.spendsTx(t.hash)
+	}
+	switch e.kind {
+	case "seen":
+		if !bound(e.tx) {
+			return false
+		}
+		if l.find(e.tx.hash) != nil {
+			return true
+		}
+		for _, in := range e.tx.ins {
+			if l.spentConfirmed(in) {
+				return false // the node's mempool rejects a transaction conflicting with the chain
+			}
+		}
+		return validRefs(e.tx)
+	case "conf":
+		if !bound(e.tx) {
+			return false
+		}
+		return l.find(e.tx.hash) != nil || validRefs(e.tx)
+	case "abandon":
+		for _, t := range l.pool {
+			if t.hash == e.tx.hash {
+				return sameTx(t, e.tx)
+			}
+		}
+		return false
+	}
+	return true
+}
+
 // ---------------------------------------------------------------------------------------------------------
 // oracles: the property statements evaluated on the REAL outputs
 
+// specReady: the property oracles apply only while the history delivered so far lies inside the properties'
+// quantifier (r.strict: every event was `consistent` and `extra` when it was delivered).
 func (r *runner) specReady() bool {
-	if !r.cons || r.oracleOff {
+	if !r.cons || !r.strict || r.oracleOff {
 		return false
 	}
 	r.jled.now = r.now
